@@ -242,7 +242,12 @@ def _unsup(msg):
 
 
 def fs_query(I, what, path):
-    """ghost file system: path -> exists? (symbolic, stable within a path)"""
+    """ghost file system: path -> exists? (symbolic, stable within a path); files created through the model exist"""
+    gd = I.ctx.ghost.get('$dict')
+    if gd is not None and 'files' in gd.d and isinstance(path, str):
+        fsd = gd.d['files']
+        if path in fsd.d:
+            return True
     g = I.ctx.ghost.setdefault('fs', {})
     key = (what, path if isinstance(path, str) else id(path))
     if key not in g:
